@@ -43,7 +43,7 @@ func vC28Retarget(tx *common.VersionedTransaction, refs []crypto.Hash) *common.V
 func TestVerif_C28(t *testing.T) {
 	r := verifkit.Start(t, "C28", "exploration")
 	r.SetRule("W-feed on 9 chains over several days. (a) Batch rules: snapshots mixing batchable transactions (deposits, transfers, withdrawals) with consensus-class ones " +
-		"(real node removals and custodian updates built the way the elected node builds them, plus mint/pledge-typed transactions), and lone consensus transactions whose first " +
+		"(real node removals, custodian updates, universal mints, node pledges and node acceptances built the way the elected or joining node builds them, plus mint/pledge-typed transactions), and lone consensus transactions whose first " +
 		"reference and snapshot timestamp are varied (right predecessor, older predecessor, none; later, equal, earlier than the last consensus snapshot), are given to " +
 		"validateKernelSnapshot (both finalized flags); whatever it accepts must satisfy: >1 transaction => all batchable; lone consensus transaction => first reference is " +
 		"the last recorded consensus transaction and the timestamp is strictly later. (b) History: after each finalized consensus snapshot ReadLastConsensusSnapshot is that " +
@@ -51,7 +51,7 @@ func TestVerif_C28(t *testing.T) {
 		"have exactly one open tail. non-trivial = distinct (case class, verdict) observations and distinct finalized consensus snapshots")
 	rng := r.Rand()
 	f := verifNewFeed(t, fmt.Sprintf("c28-%d", r.Seed), 9, rng, t.TempDir(), nil)
-	defer f.stop()
+	defer func() { f.stop() }()
 	w := verifgen.NewWallet(f.net.Label, rng, &f.net.Custodian, 4)
 	assets := verifgen.Assets()
 	days := r.N(5, 20)
@@ -93,6 +93,9 @@ func TestVerif_C28(t *testing.T) {
 	judge := func(class string, chainId crypto.Hash, ts uint64, txs []*common.VersionedTransaction) {
 		for _, finalized := range []bool{false, true} {
 			s := &common.Snapshot{Version: common.SnapshotVersionCommonEncoding, NodeId: chainId, RoundNumber: 1 + uint64(rng.Intn(5)), Timestamp: ts}
+			if len(class) > 6 && class[:6] == "accept" && len(txs) == 1 {
+				s.RoundNumber = 0 // an acceptance opens the new node's chain (round zero cannot carry more than one transaction)
+			}
 			found := map[crypto.Hash]*common.VersionedTransaction{}
 			for _, tx := range txs {
 				s.Transactions = append(s.Transactions, tx.PayloadHash())
@@ -149,10 +152,21 @@ func TestVerif_C28(t *testing.T) {
 		}
 	}
 
+	var prebuilt *common.Snapshot // a certified snapshot built by the caller (node acceptance: round zero of a new chain)
 	finalizeOp := func(kind string, chainId crypto.Hash, tx *common.VersionedTransaction, ts uint64) bool {
-		_, d := f.feedBatch(chainId, []*common.VersionedTransaction{tx}, ts)
-		if !d.Finalized {
-			_, d = f.feedBatch(chainId, []*common.VersionedTransaction{tx}, f.tick(uint64(time.Second)))
+		var d verifDelivery
+		if prebuilt != nil {
+			s := prebuilt
+			prebuilt = nil
+			d = f.deliver(s, []*common.VersionedTransaction{tx})
+			if st, _ := f.node.persistStore.ReadSnapshot(s.Hash); st != nil && !d.Panicked {
+				d.Finalized = true
+			}
+		} else {
+			_, d = f.feedBatch(chainId, []*common.VersionedTransaction{tx}, ts)
+			if !d.Finalized {
+				_, d = f.feedBatch(chainId, []*common.VersionedTransaction{tx}, f.tick(uint64(time.Second)))
+			}
 		}
 		if !d.Finalized {
 			r.Count("consensus_op_not_finalized_"+kind, 1)
@@ -257,8 +271,78 @@ func TestVerif_C28(t *testing.T) {
 			}
 		}
 	}
+	opsFirst := len(chainOps)
+
+	// Second history: the mint / pledge / acceptance classes, built the way the elected (or joining) node builds
+	// them, on an epoch five years back (universal mints exist from batch 1707 on).
+	f.stop()
+	f = verifNewFeedAt(t, fmt.Sprintf("c28m-%d", r.Seed), 7, rng, t.TempDir(), nil, verifMintEpochUnix(), 1707)
+	w = verifgen.NewWallet(f.net.Label, rng, &f.net.Custodian, 4)
+	gl, _ = f.node.persistStore.ReadLastConsensusSnapshot()
+	gtx, _, _ = f.node.persistStore.ReadTransaction(gl.Transactions[0])
+	chainOps = []rec{{gl, gtx}}
+	probes := func(kind string, chainId crypto.Hash, ts uint64, tx *common.VersionedTransaction, pool []*common.VersionedTransaction) {
+		judge(kind+"-alone", chainId, ts, []*common.VersionedTransaction{tx})
+		if len(pool) > 0 {
+			judge(kind+"+batchable", chainId, ts, []*common.VersionedTransaction{tx, pool[rng.Intn(len(pool))]})
+		}
+		if len(pool) > 1 {
+			judge(kind+"+2-batchable", chainId, ts, []*common.VersionedTransaction{pool[0], tx, pool[1]})
+		}
+		if len(chainOps) > 1 {
+			judge(kind+"-older-predecessor", chainId, ts, []*common.VersionedTransaction{vC28Retarget(tx, []crypto.Hash{chainOps[len(chainOps)-2].tx.PayloadHash()})})
+		}
+		judge(kind+"-no-reference", chainId, ts, []*common.VersionedTransaction{vC28Retarget(tx, nil)})
+		last := chainOps[len(chainOps)-1]
+		if last.snap.Timestamp > 0 {
+			for _, early := range []uint64{last.snap.Timestamp, last.snap.Timestamp - uint64(time.Minute)} {
+				cls := kind + "-timestamp-earlier"
+				if early == last.snap.Timestamp {
+					cls = kind + "-timestamp-equal"
+				}
+				judge(cls, chainId, early, []*common.VersionedTransaction{tx})
+			}
+		}
+	}
+	cycles := r.N(1, 4)
+	for c := 0; c < cycles; c++ {
+		pool := ordinary(3 + rng.Intn(3))
+		if mc, mtx, mts, err := f.buildMint(w); err != nil {
+			r.Count("mint_not_buildable", 1)
+			t.Logf("mint: %v", err)
+		} else {
+			probes("mint", mc, mts, mtx, pool)
+			if finalizeOp("mint", mc, mtx, mts) {
+				judge("replay-last-operation", mc, mts, []*common.VersionedTransaction{mtx})
+			}
+		}
+		pool = append(pool, ordinary(2)...)
+		pc, ptx, pts, cand, err := f.buildPledge(w)
+		if err != nil {
+			r.Count("pledge_not_buildable", 1)
+			t.Logf("pledge: %v", err)
+			continue
+		}
+		probes("pledge", pc, pts, ptx, pool)
+		if !finalizeOp("node-pledge", pc, ptx, pts) {
+			continue
+		}
+		as, atx, err := f.buildAccept(cand)
+		if err == nil {
+			_, err = f.sign(as, rng.Intn(2))
+		}
+		if err != nil {
+			r.Count("accept_not_buildable", 1)
+			t.Logf("accept: %v", err)
+			continue
+		}
+		probes("accept", as.NodeId, as.Timestamp, atx, pool)
+		prebuilt = as
+		finalizeOp("node-accept", as.NodeId, atx, as.Timestamp)
+	}
+	r.Note("consensus_operations_in_first_history", opsFirst)
 	r.Note("consensus_operations_in_history", len(chainOps))
-	if len(chainOps) < 3 {
+	if len(chainOps) < 3 || opsFirst < 3 {
 		r.Inconclusive(fmt.Sprintf("only %d consensus operations in the history", len(chainOps)))
 	}
 	r.Finish()
